@@ -135,8 +135,9 @@ def run(ck, F):
     for c in F.constructs.values():
         if 'Composite<ipr::Qualified>' in c.get('cls', '') and not c.get('copy'):
             makers.add(c['fn'])
+    QTAB = F.role_field('ipr::impl::type_factory', lambda fl: 'rb_tree::container<' in fl['t'] and 'ipr::Qualified' in fl['t'], 'table of qualified types')
     tab_users = {g['id'] for g in F.fn.values() for n in walk(g.get('body'))
-                 if n.get('k') == 'member' and n.get('name') == 'qualifieds' and n.get('cls') == 'ipr::impl::type_factory'}
+                 if n.get('k') == 'member' and n.get('name') == QTAB and n.get('cls') == 'ipr::impl::type_factory'}
     only_node = all('rb_tree::container<' in m and 'make_node' in m for m in makers)
     ck.check(R3, 'impl::Qualified', only_node and tab_users == {GQ},
              f'Qualified nodes are built in {sorted(makers)}; the table is used by {sorted(tab_users)}', loc=f['loc'])
